@@ -37,6 +37,8 @@ enum Tri3 {
     FeatureEq(String),
     TargetHostLike(String),
     TargetLikeExact(String),
+    TargetLikeOwnPort,     // request.target =~ to_string(request.target.port) : the pattern is computed per request
+    TypeLikeSourceType(bool), // request.target.type =~ request.source.type (or !~): pattern taken from another attribute
     CidrSource(String),
     CidrTarget(String),
     ToIntHostEq(i64),      // to_integer(request.target.host) == n : error unless the host is numeric
@@ -78,6 +80,8 @@ fn eval_atom(a: &Tri3, r: &Req) -> Tri {
         Tri3::HostInAttrs(s2) => b(&thost == s2 || &r.listener == s2),
         Tri3::FeatureEq(s) => b(feature_name(r.feature) == s),
         Tri3::TargetHostLike(s) => b(thost.contains(s.as_str())),
+        Tri3::TargetLikeOwnPort => Tri::T,
+        Tri3::TypeLikeSourceType(like) => b((r.target.r#type() == if r.source.is_ipv4() { "ipv4" } else { "ipv6" }) == *like),
         Tri3::TargetLikeExact(s) => b(&r.target.to_string() == s),
         Tri3::CidrSource(c) => b(cidr_contains(&r.source.ip(), c)),
         Tri3::CidrTarget(c) => match thost.parse::<IpAddr>() {
@@ -161,7 +165,7 @@ fn atom(r: &mut Rng, req: &Req) -> Flt {
     let near = r.chance(1, 2);
     let q = |s: &str| format!("\"{}\"", s);
     let thost = req.target.host();
-    let (text, a) = match r.below(20) {
+    let (text, a) = match r.below(22) {
         0 => {
             let l = if near { req.listener.clone() } else { "other".into() };
             let eq = r.chance(3, 4);
@@ -243,6 +247,11 @@ fn atom(r: &mut Rng, req: &Req) -> Flt {
             (format!("split(request.target.host, \".\")[{}] == \"com\"", k), Tri3::SplitIndex(k))
         }
         17 => ("request.target.host =~ \"(\"".to_string(), Tri3::BadRegex),
+        18 => ("request.target =~ to_string(request.target.port)".to_string(), Tri3::TargetLikeOwnPort),
+        19 => {
+            let like = r.chance(1, 2);
+            (format!("request.target.type {} request.source.type", if like { "=~" } else { "!~" }), Tri3::TypeLikeSourceType(like))
+        }
         _ => {
             let v = r.chance(1, 2);
             (v.to_string(), Tri3::Const(v))
